@@ -592,6 +592,9 @@ def run(c):
             c.seen("depth 4")
     if set(KIND_OF.values()) <= kinds_seen:
         c.seen("every field kind present")
+    # concurrent FIRST use of the serialiser / parser in fresh processes (ASCII values of every field kind)
+    simple = [v for v in values[:4000] if v and all(not isinstance(x, str) or x.isascii() and not any(ch in x for ch in "{}[]") for x in v.values()) and "ls" not in v and "o" not in v and "a" not in v][:12]
+    core.cold_race_check(c, "C19", [core.Case("cr%d" % i, "json.roundtrip", encode(v)) for i, v in enumerate(simple)], trials=30 if c.quick else 600)
     failures = {}
     for lane in ("rel", "chk"):
         res = evaluate(values, lane=lane)
